@@ -67,12 +67,12 @@ Edge == UNION {{ [i \in 1..8 |-> IF i < 9 - k THEN 0 ELSE IF i = 9 - k THEN 128 
                  [i \in 1..8 |-> IF i < 9 - k THEN 255 ELSE IF i = 9 - k THEN 128 ELSE 0],
                  [i \in 1..8 |-> IF i < 9 - k THEN 255 ELSE IF i = 9 - k THEN 127 ELSE 255],
                  [i \in 1..8 |-> IF i = 8 - k THEN 1 ELSE 0],
-                 [i \in 1..8 |-> IF i <= 8 - k THEN 255 ELSE 0] } : k \in {3, 5, 6, 7}}
+                 [i \in 1..8 |-> IF i <= 8 - k THEN 255 ELSE 0] } : k \in {2, 3, 4, 5, 6, 7, 8}}
 Init == /\ phase \in {<<"b", op, kind>> : op \in {"set", "ref", "swap", "inrange", "sweep"}, kind \in {0, 1, 2}} /\ ev = Boot
 Next == /\ phase[1] = "b" /\ ev' = Boot
         /\ LET op == phase[2]
                kind == phase[3]
-           IN \/ op \in {"set", "ref"} /\ \E w \in Widths(kind), order \in {0, 1, 2}, off \in 0..7, v8 \in Samples :
+           IN \/ op \in {"set", "ref"} /\ \E w \in Widths(kind), order \in {0, 1, 2}, off \in 0..7 : \E v8 \in Samples \cup (IF off \in {0, 3} THEN Edge ELSE {}) :
                                               phase' = <<"c", op, kind, w, order, off, v8>>
               \/ op = "swap" /\ kind = 0 /\ \E w \in Widths(0), v8 \in Samples : phase' = <<"c", op, kind, w, 0, 0, v8>>
               \/ op = "inrange" /\ kind \in {0, 1} /\ \E w \in {24, 40, 48, 56}, v8 \in Samples \cup Edge : phase' = <<"c", op, kind, w, 0, 0, v8>>
